@@ -15,6 +15,7 @@ A missing anchor is a broken tie: the list then lacks that fact and the lock lem
   BF_FilterPriority      `if let Some(filter_bbox) = self.filters_bounding_box()` overrides the layer box
   BF_AbsLayer            abs_layer_bounding_box = layer_bounding_box.transform(abs_transform)
   BF_PathNoSkew          Path::new: without skew, abs boxes = boxes.transform(abs_transform)
+  BF_PathSkewBranch      Path::new: with skew, abs_bounding_box = tight bounds of the transformed path
   BF_ImageAbs            image abs box = actual_size rect (0,0) .transform(parent.abs * image_ts)
   BF_GroupAbs            convert_group: abs_transform = parent.abs_transform.pre_concat(transform)
   BF_UseChildrenAbs      use_node::convert_children: parent.abs_transform temporarily pre_concat(transform), g.transform = transform
@@ -26,6 +27,8 @@ A missing anchor is a broken tie: the list then lacks that fact and the lock lem
   BF_RenderNodeSingleExit  render_node has exactly one early exit: the `?` on abs_layer_bounding_box (no other `?`, no `return`)
   BF_RenderNodeTs        render_node: pre_translate(-bbox.x(), -bbox.y()) then pre_concat(parent abs transform)
   BF_RenderNodeParentTs  parent transform: group -> abs * ts^-1, other nodes -> abs_transform
+  BF_RenderDrawList      render.rs: render_nodes iterates the children in order, a leaf is drawn under `transform`, render_group
+                         pre_concats group.transform() first
   BF_NodeById            Tree::node_by_id / node_by_id: empty id -> None, pre-order search over groups
 """
 import re
@@ -37,6 +40,7 @@ IMAGE = 'crates/usvg/src/parser/image.rs'
 CONV = 'crates/usvg/src/parser/converter.rs'
 USE = 'crates/usvg/src/parser/use_node.rs'
 LIB = 'crates/resvg/src/lib.rs'
+RENDER = 'crates/resvg/src/render.rs'
 
 
 def norm(s):
@@ -71,6 +75,8 @@ FACTS = [
     ('BF_AbsLayer', TREE, r"self\.abs_layer_bounding_box = self\.layer_bounding_box\.transform\(self\.abs_transform\)\?; Some\(\(\)\) \}"),
     ('BF_PathNoSkew', TREE, r"if abs_transform\.has_skew\(\) \{.*\} else \{ abs_bounding_box = bounding_box\.transform\(abs_transform\)\?; "
                             r"abs_stroke_bounding_box = stroke_bounding_box\.transform\(abs_transform\)\?; \}"),
+    ('BF_PathSkewBranch', TREE, r"let bounding_box = data\.compute_tight_bounds\(\)\?;.*if abs_transform\.has_skew\(\) \{ let path2 = data\.as_ref\(\)\.clone\(\); "
+                                r"let path2 = path2\.transform\(abs_transform\)\?; abs_bounding_box = path2\.compute_tight_bounds\(\)\?;"),
     ('BF_ImageAbs', IMAGE, r"let abs_transform = parent\.abs_transform\.pre_concat\(image_ts\); "
                            r"let abs_bounding_box = actual_size \.to_non_zero_rect\(0\.0, 0\.0\) \.transform\(abs_transform\)\?;"),
     ('BF_GroupAbs', CONV, r"let abs_transform = parent\.abs_transform\.pre_concat\(transform\);"),
@@ -91,6 +97,15 @@ FACTS = [
                              r"let ctx = render::Context \{ max_bbox \}; render::render_node\(node, &ctx, transform, pixmap\); Some\(\(\)\) \}"),
     ('BF_RenderNodeParentTs', LIB, r"let parent_ts = match node \{ usvg::Node::Group\(ref g\) => g \.abs_transform\(\) "
                                    r"\.pre_concat\(g\.transform\(\)\.invert\(\)\.unwrap_or_default\(\)\), _ => node\.abs_transform\(\), \};"),
+    ('BF_RenderDrawList', RENDER, r"pub fn render_nodes\( parent: &usvg::Group, ctx: &Context, transform: tiny_skia::Transform, pixmap: &mut tiny_skia::PixmapMut, \) \{ "
+                                  r"for node in parent\.children\(\) \{ render_node\(node, ctx, transform, pixmap\); \} \}.*"
+                                  r"usvg::Node::Group\(ref group\) => \{ render_group\(group, ctx, transform, pixmap\); \} "
+                                  r"usvg::Node::Path\(ref path\) => \{ crate::path::render\( path, tiny_skia::BlendMode::SourceOver, ctx, transform, pixmap, \); \} "
+                                  r"usvg::Node::Image\(ref image\) => \{ crate::image::render\(image, transform, pixmap\); \} "
+                                  r"usvg::Node::Text\(ref text\) => \{ render_group\(text\.flattened\(\), ctx, transform, pixmap\); \}.*"
+                                  r"fn render_group\( group: &usvg::Group, ctx: &Context, transform: tiny_skia::Transform, pixmap: &mut tiny_skia::PixmapMut, \) "
+                                  r"-> Option<\(\)> \{ let transform = transform\.pre_concat\(group\.transform\(\)\); "
+                                  r"if !group\.should_isolate\(\) \{ render_nodes\(group, ctx, transform, pixmap\); return Some\(\(\)\); \}"),
     ('BF_NodeById', TREE, r"pub fn node_by_id\(&self, id: &str\) -> Option<&Node> \{ if id\.is_empty\(\) \{ return None; \} node_by_id\(&self\.root, id\) \}.*"
                           r"fn node_by_id<'a>\(parent: &'a Group, id: &str\) -> Option<&'a Node> \{ for child in &parent\.children \{ "
                           r"if child\.id\(\) == id \{ return Some\(child\); \} if let Node::Group\(ref g\) = child \{ "
